@@ -434,6 +434,44 @@ class Glue:
             rec[1] += 1
         return None
 
+    def h_assert_halfway(self, ex, st, fr, ins, args):
+        """tier 5f: the digit buffer (n digits) holds every exact halfway point of the binade with ulp 2^e2:
+        the midpoint (2M+1)*2^(e2-1) has at most n significant decimal digits for every M the path allows.
+        (With that, dropped non-zero digits always mean 'strictly above the kept prefix', which is what the
+        truncation flag tells the rounding step.)"""
+        from .terms import sgn
+        n, man, e2, idv = args
+        aid = bytes(idv[1]).decode()
+        rec = self.ses.asserts.setdefault(aid, [0, 0])
+        lia = self.lia
+        if n.__class__ is Term or e2.__class__ is Term:
+            raise NotImplementedError('symbolic buffer length / exponent')
+        n, e2 = sgn(n, 64), sgn(e2, 64)
+        m, _, _, mside = lia.conv(man)
+        q = 1 - e2
+        odd = 2 * m + 1
+        # significant digits of odd * 2^(e2-1): odd*5^q (q > 0, no trailing zero: the product is odd) or odd*2^(-q)
+        # without its trailing zeros (none are counted away here: an upper bound on the digit count suffices)
+        val = odd * (5 ** q) if q > 0 else odd * (2 ** (-q))
+        bad = val >= 10 ** n
+        r = lia.check(st.pc, st.extras, (), raw=list(st.raw) + list(mside) + [bad])
+        self.ses.obligations = getattr(self.ses, 'obligations', 0) + 1
+        if r == 'unsat':
+            rec[0] += 1
+            return None
+        badst = st.fork()
+        badst.status = 'assertfail'
+        badst.result = (aid, ins['pos'])
+        if r == 'sat':
+            assign = lia.model_assign()
+            for t in st.nondet:
+                badst.extras = badst.extras + (ex.store.mk('eq', 0, t, ex.store.evaluate(t, assign)),)
+        else:
+            badst.inexact = True
+        ex.finish(badst)
+        rec[1] += 1
+        return None
+
     def h_assert_roundint(self, ex, st, fr, ins, args):
         """tier 5d: n is the nearest integer (ties to even) of the decimal's value; with trunc every value
         strictly inside the last digit's bracket above the recorded one rounds to n"""
